@@ -158,6 +158,7 @@ class Assembler:
                 scope.declared.add(st["n"])
             elif k == "incbin":
                 scope.declared.add(st["f"].replace("/", "_").replace(".", "_"))
+                scope.declared.add(st["f"].replace("/", "_").replace(".", "_") + "__size")
             elif k == "include":
                 self.predeclare(st["b"], scope)
             elif k == "if":
@@ -374,6 +375,8 @@ class Assembler:
             n = self.size_of(item)
             if k == "incbin":
                 base = st["f"].replace("/", "_").replace(".", "_")
+                if base in scope.defs or base + "__size" in scope.defs:
+                    raise Unspecified("duplicate definition in one scope")
                 scope.define(base, run)
                 scope.define(base + "__size", n)
                 if not self._in_loop(scope):
